@@ -97,6 +97,8 @@ def applyOp (s : Sys) (ws : List String) : Option Sys :=
   -- a permit nobody is waiting for yet: the next hook that reaches its gate does not suspend
   | ["pregate"] => step? s .gate
   | ["tick"] => some s
+  -- real time passes on the harness side (metrics oracle); nothing happens
+  | ["stall"] => some s
   | _ => none
 
 def parseSpawn (ws : List String) : Option Sys := do
@@ -206,7 +208,7 @@ def parseEv (ws : List String) : Option Ev :=
 def monitorsFor (names : List String) (settled : Bool) : List (String × (Monitor.Trace → Bool)) :=
   let all : List (String × (Monitor.Trace → Bool)) :=
     [("C01", Monitor.C01.ok), ("C02", Monitor.C02.ok), ("C03", if settled then Monitor.C03.okSettled else Monitor.C03.ok), ("C04", Monitor.C04.ok),
-     ("C05", Monitor.C05.ok), ("C06", if settled then Monitor.C06.okSettled else Monitor.C06.ok),
+     ("C05", Monitor.C05.ok), ("C06", if settled then Monitor.C06.okSettled else Monitor.C06.okAtomic),
      ("C07", if settled then Monitor.C07.okSettled else Monitor.C07.ok),
      ("C08", Monitor.C08.ok), ("C09", Monitor.C09.ok), ("C10", Monitor.C10.ok), ("C11", Monitor.C11.ok),
      ("C13", Monitor.C13.ok), ("C19", Monitor.C19.ok)]
